@@ -16,3 +16,22 @@ Theorem C18_error_indicator_surfaces : forall direct oc error edcp,
   dm15_status d = dm15_status_FAILED /\ dm15_error d = error /\ dm15_edcp d = edcp.
 Proof. exact dm15_error_layout. Qed.
 Print Assumptions C18_error_indicator_surfaces.
+
+(* ---------------------------------------------------------------- state-machine level (theories/Dm14Srv.v) *)
+From J1939 Require Import Dm14Srv.
+From J1939P Require Import Dm14SrvProofs.
+
+(* T18.1 (state-machine form): with a seed/key algorithm configured, in EVERY state of server and facade and for EVERY
+   message delivered to ANY registered callbacks, the application is asked (proceed callback) only with a key that is
+   the key of the seed, and notified only after having been asked so; everything else the delivery emits are frames *)
+Theorem C18_key_gate_every_state : forall c s pgn sa data,
+  c_seedsec c = true -> gated c (deliver c s pgn sa data).
+Proof. exact key_gate_deliver. Qed.
+Print Assumptions C18_key_gate_every_state.
+
+Theorem C18_wrong_key_never_reaches_application : forall c s pgn sa data,
+  c_seedsec c = true ->
+  let '(_, os, _) := deliver c s pgn sa data in
+  forall cmd ad pt l oc k a acc sd, In (SProceedFn cmd ad pt l oc k a acc sd) os -> c_key c sd = k.
+Proof. exact wrong_key_never_reaches_application. Qed.
+Print Assumptions C18_wrong_key_never_reaches_application.
